@@ -265,7 +265,7 @@ def coq_addr(s):
 def dns_universe(case):
     ids = set()
     for op in case["ops"]:
-        if op[0] in ("name", "host"):
+        if op[0] in ("name", "host", "lookup_many_times"):
             ids.add(op[1])
     return sorted(ids)
 
@@ -280,7 +280,9 @@ def dns_to_model(case, obs):
     uni = dns_universe(case)
     evs = []
     for op in ops:
-        if op[0] in ("name", "host"):
+        if op[0] in ("name", "host", "lookup_many_times"):
+            # n lookups of one name = one lookup (C15.dns_known_lookup_no_advance: a known
+            # name is returned without touching the counter)
             evs.append("DLookup (Name %d)" % op[1])
         elif op[0] in ("lit", "litstr"):
             evs.append("DLookup (Literal (%s))" % coq_addr(op[1]))
@@ -677,6 +679,27 @@ def gen_dns_script(rng, max_names=600):
         else:
             ops.append(["re", rng.choice(REGEXES)])
     return {"cfg": {"kind": "dns", "v6": v6}, "ops": ops, "flavour": "dns-random"}
+
+
+def dns_repeat_cases():
+    """Deterministic: a few names, then tens of thousands of lookups of KNOWN names (a
+    lookup of a known name must not consume an address), then names introduced late,
+    reverse lookups and regex lookups.  65 536 burnt addresses would wrap the IPv4 counter
+    onto the addresses handed out first."""
+    out = []
+    for first, burn, late in ((10, [(3, 65530)], 16), (40, [(0, 30000), (39, 35600)], 12), (3, [(1, 65534), (2, 65536)], 8)):
+        for v6 in (False, True):
+            ops = [["name", i] for i in range(first)]
+            for (i, n) in burn:
+                ops.append(["lookup_many_times", i, n])
+            for i in range(first, first + late):
+                ops.append(["name", i])
+            for x in range(0, first + late + 2):
+                a = str(ipaddress.IPv6Address((0xfe80 << 112) + x)) if v6 else str(ipaddress.IPv4Address((192 << 24) + (168 << 16) + x))
+                ops.append(["rev", a])
+            ops += [["re", "^n"], ["name", 0], ["name", first], ["lookup_many_times", first + late - 1, 5]]
+            out.append({"cfg": {"kind": "dns", "v6": v6}, "ops": ops, "flavour": "dns-repeat"})
+    return out
 
 
 def dns_bulk_case(v6, count, probes):
